@@ -233,6 +233,30 @@ fn scenario_update(rep: &mut Report, rng: &mut Rng) {
     let ref_orig = orig.data.clone();
     let ref_rebuilt = rebuilt0.data.clone();
     rep.count("update_path", if rebuilt_flag { "rebuilt" } else { "in-place" });
+    // the path-based convenience (`metadata::update(path, ..)`, which reads and rewrites the same
+    // file) must leave exactly what the in-memory update produced whenever it reports success
+    {
+        let path = crate::api::scratch_dir().join(format!("c13-{}-{:016x}.flac", std::process::id(), fnv(&file) ^ value_len as u64));
+        if std::fs::write(&path, &file).is_ok() {
+            rep.eval();
+            let r = mon::guard(|| metadata::update(&path, edit).map_err(|e| crate::api::show(&e)));
+            let after = std::fs::read(&path).unwrap_or_default();
+            let _ = std::fs::remove_file(&path);
+            let replay = || J::obj().set("scenario", "update(path)").set("file", J::hex(&file)).set("value_len", value_len);
+            match r {
+                Err(p) => rep.violation("panic", p.signature(), format!("metadata::update(path): {} at {}", p.msg, p.location), replay()),
+                Ok(Ok(flag)) => {
+                    let want = if rebuilt_flag { &ref_rebuilt } else { &ref_orig };
+                    if flag != rebuilt_flag || after != *want {
+                        rep.violation("false-success", "ok-but-incomplete:update:path", format!("metadata::update(path) returned Ok({flag}) but the file holds {} bytes where the in-memory update produced {} (first difference at byte {:?})", after.len(), want.len(), after.iter().zip(want.iter()).position(|(a, b)| a != b)), replay());
+                    } else {
+                        rep.count("outcome", "update:path:ok");
+                    }
+                }
+                Ok(Err(e)) => rep.violation("update-error", "update-path-failed-without-fault", e, replay()),
+            }
+        }
+    }
     // faults on the original file object (reads, writes, flushes, seeks) and on the rebuilt sink
     for target in ["original", "rebuilt"] {
         let counts = if target == "original" { orig.counts } else { rebuilt0.counts };
@@ -521,6 +545,65 @@ fn c14_case(rep: &mut Report, rng: &mut Rng, thorough: bool) {
     rep.sample(|| J::obj().set("cfg", cfg.to_json()).set("front", format!("{front:?}")).set("prefinalize_bytes", full.len()).set("frames_written", d.frames.len()).set("sink_events", m.log.len()).set("declared_total", cfg.declare_total));
 }
 
+/// C14 through the path-based constructors: a finished (longer) file from an earlier run is being
+/// overwritten when the process dies before finalize.  Whatever is on disk afterwards may only
+/// decode to complete frames of the NEW run's leading samples - never to audio of the old file.
+fn c14_path_case(rep: &mut Report, rng: &mut Rng) {
+    use flac_codec::decode::FlacSampleReader;
+    use flac_codec::encode::FlacSampleWriter;
+    let (mut cfg, _, pcm_new) = small_case(rng);
+    cfg.extras = 0;
+    let ch = cfg.channels as usize;
+    let mut r2 = Rng::new(rng.next());
+    let pcm_old = flacref::pcm::generate(flacref::pcm::Signal::NoiseLow, ch, cfg.bps, pcm_new.len() / ch * 4 + 500, &mut r2);
+    let path = crate::api::scratch_dir().join(format!("c14-{}-{:016x}.flac", std::process::id(), rng.next()));
+    rep.eval();
+    rep.case_begin(&format!("crash while overwriting an existing file {cfg:?} new {} old {}", pcm_new.len(), pcm_old.len()));
+    rep.count("crash_scenario", "path-overwrite");
+    let replay = || J::obj().set("scenario", "path-overwrite-crash").set("cfg", cfg.to_json()).set("new_pcm", pcm_json(&pcm_new));
+    let r = mon::guard(|| -> Result<(), String> {
+        let e = |e: flac_codec::Error| crate::api::show(&e);
+        let mut w = FlacSampleWriter::create(&path, make_options(&cfg)?.overwrite(), cfg.rate, cfg.bps, cfg.channels, None).map_err(e)?;
+        w.write(&pcm_old).map_err(e)?;
+        w.finalize().map_err(e)?;
+        let total = cfg.declare_total.then_some(pcm_new.len() as u64 + ch as u64 * 1000);
+        let mut w = FlacSampleWriter::create(&path, make_options(&cfg)?.overwrite(), cfg.rate, cfg.bps, cfg.channels, total).map_err(e)?;
+        w.write(&pcm_new).map_err(e)?;
+        std::mem::forget(w); // crash: no finalize, no Drop, nothing buffered reaches the disk
+        Ok(())
+    });
+    match r {
+        Err(p) => rep.violation("panic", p.signature(), format!("{} at {}", p.msg, p.location), replay()),
+        Ok(Err(e)) => rep.violation("encode-error", format!("encode-error:{}", err_name(&e)), e, replay()),
+        Ok(Ok(())) => {
+            let got = mon::guard(|| {
+                let mut v: Vec<i32> = vec![];
+                if let Ok(mut rd) = FlacSampleReader::open(&path) {
+                    let mut buf = vec![0i32; 4096];
+                    while let Ok(k) = rd.read(&mut buf) {
+                        if k == 0 {
+                            break;
+                        }
+                        v.extend_from_slice(&buf[..k]);
+                    }
+                }
+                v
+            });
+            match got {
+                Err(p) => rep.violation("panic", p.signature(), format!("decoding the interrupted file: {} at {}", p.msg, p.location), replay()),
+                Ok(v) => {
+                    if v.len() > pcm_new.len() || v[..] != pcm_new[..v.len()] {
+                        rep.violation("lost-or-fabricated-frames", "crash-prefix:path:foreign-audio", format!("after a crash while overwriting an existing file the decoder delivers {} samples that are not the interrupted run's leading samples ({})", v.len(), first_diff(&v, &pcm_new[..v.len().min(pcm_new.len())])), replay());
+                    } else {
+                        rep.nontrivial(fnv(&flacref::pcm::to_bytes(&pcm_new, 32, false)));
+                    }
+                }
+            }
+        }
+    }
+    let _ = std::fs::remove_file(&path);
+}
+
 pub fn run_c14(ctx: &Ctx, rep: &mut Report) {
     if ctx.replay.is_some() {
         let text = std::fs::read_to_string(ctx.replay.as_ref().unwrap()).expect("replay");
@@ -538,6 +621,9 @@ pub fn run_c14(ctx: &Ctx, rep: &mut Report) {
     let mut i = 0;
     while i < 3 || ctx.time_left() {
         c14_case(rep, &mut rng, ctx.thorough);
+        if i % 4 == 0 {
+            c14_path_case(rep, &mut rng);
+        }
         i += 1;
     }
     rep.exhaustive = Some(true);
